@@ -28,6 +28,7 @@ type memFile struct {
 	mtime int64
 	dir   bool
 	link  bool // listed as a symbolic link (to a regular file)
+	empty bool // a file of 0 bytes (everything else has some content)
 }
 
 type recFS struct {
@@ -71,7 +72,12 @@ type memInfo struct {
 }
 
 func (i memInfo) Name() string { return i.name }
-func (i memInfo) Size() int64  { return 0 }
+func (i memInfo) Size() int64 {
+	if i.f.empty || i.f.dir {
+		return 0
+	}
+	return 4096 + i.f.mtime%1000
+}
 func (i memInfo) Mode() fs.FileMode {
 	if i.f.dir {
 		return fs.ModeDir | 0o755
@@ -249,7 +255,8 @@ func gpProc(toks []string) string {
 		for _, e := range strings.Split(x, ",") {
 			p := strings.Split(e, ":")
 			mt, _ := strconv.ParseInt(p[1], 10, 64)
-			fsys.files[unhexStr(p[0])] = &memFile{mtime: mt}
+			// (an existing output may be an empty file — one in three, by its recorded time: it exists all the same)
+			fsys.files[unhexStr(p[0])] = &memFile{mtime: mt, empty: mt%3 == 0}
 		}
 	}
 	var tmpl strings.Builder
